@@ -213,6 +213,10 @@ def _hist2d_summary(real):
 H2_CASES = [{"label": "%s,%s" % (lim, lay), "limits": lim, "layers": lay}
             for lim in ("auto", "explicit", "explicit_quantity")
             for lay in ("none", "sum", "mean", "sum+mean")]
+# every subset of the four limits given explicitly, the others automatic (each limit is parsed and padded on its own)
+H2_CASES += [{"label": "only:%s,sum" % "+".join(sub), "limits": "mixed", "given": sub, "layers": "sum"}
+             for sub in (("xmin",), ("xmax",), ("ymin",), ("ymax",), ("xmin", "ymax"), ("xmax", "ymin"), ("xmin", "xmax"), ("ymin", "ymax"),
+                         ("xmax", "ymin", "ymax"), ("xmin", "xmax", "ymin"))]
 
 
 @summary("hist2d@histogram2d", H2 + ":hist2d")
@@ -233,7 +237,15 @@ def histogram2d(case):
     ya = osy.Array(values=snp.sym_array("y", (n,), "float64"), unit=uy, name="y")
     res = core.fresh_int("res", 1)
     kw = {}
-    if case["limits"] != "auto":
+    if case["limits"] == "mixed":
+        lims = {k: core.fresh_real(k) for k in case["given"]}
+        kw.update(lims)
+        # precondition of a meaningful call: a given limit leaves room on its axis (max above every point, min below)
+        jq = z3.Int("j_all")
+        for k, v in lims.items():
+            f = (xa if k[0] == "x" else ya)._array._sym_fn
+            core.cur().add(z3.ForAll([jq], (f(jq) < v.t) if k.endswith("max") else (f(jq) > v.t)))
+    elif case["limits"] != "auto":
         lims = {k: core.fresh_real(k) for k in ("xmin", "xmax", "ymin", "ymax")}
         core.assume(lims["xmin"] < lims["xmax"])
         core.assume(lims["ymin"] < lims["ymax"])
@@ -266,6 +278,18 @@ def histogram2d(case):
     prove("kernel.x", spec.x.elem((j,)) == sx["elem"]((j,)))
     prove("kernel.y", spec.y.elem((j,)) == sy["elem"]((j,)))
     prove("kernel.resolution", core.conj(SV.lift(spec.nx) == res, SV.lift(spec.ny) == res))
+    if case["limits"] == "mixed":
+        # a given limit is used as given; an automatic one lies strictly beyond every (finite) point on its side
+        for k in ("xmin", "xmax", "ymin", "ymax"):
+            got = getattr(spec, k)
+            pt = (sx if k[0] == "x" else sy)["elem"]((j,))
+            if k in lims:
+                prove("explicit." + k, got == lims[k])
+            elif k.endswith("min"):
+                prove("auto.covers." + k, SV.lift(got) < pt)
+            else:
+                prove("auto.covers." + k, pt < SV.lift(got))
+        return
     if case["limits"] == "auto":
         # every finite point lies strictly inside the automatic range: counts add up to all points
         prove("auto.covers.x", (spec.xmin < sx["elem"]((j,))) & (sx["elem"]((j,)) < spec.xmax))
